@@ -244,7 +244,7 @@ def body_timepoints(env):
         asms = {'a': geninp.default_asm(2), 'b': geninp.default_asm(3, P=0.0052, D=0.0042, Dw=0.0008)}
         assign = [('a', 1, 1, 'FLOWRATE=0.4'), ('b', 2, 1, 'FLOWRATE=0.5'), ('a', 2, 3, 'FLOWRATE=0.3')]
         L = 0.05
-        lin = [(lambda k, t=t: 1000.0 * (1 + 0.37 * t) * (1 + 0.1 * k)) for t in range(ntp)]
+        lin = [(lambda k, *, t=t: 1000.0 * (1 + 0.37 * t) * (1 + 0.1 * k)) for t in range(ntp)]
         other = [10.0 * (1 + 0.5 * t) for t in range(ntp)]
         for t in range(ntp):
             inp = geninp.write_case(d, asms, assign, gap_model='none', core_len=L, pin_power=lin[t], other_power=other[t])
